@@ -92,8 +92,11 @@ Fixpoint recv (remaining : Z) (ps : list bytes) (got : Z) : list bytes * bool :=
 Inductive term := TEof | TReset | TTimeout.
 
 (* final state of the download as left by one session.
-   DWedged = state DOWNLOADING with the transfer task dead (unhandled exception). *)
-Inductive dstate := DComplete | DIncomplete | DFailedCancelled | DWedged.
+   DWedged     = state DOWNLOADING with the transfer task dead (unhandled exception);
+   DWedgedInit = state INITIALIZING with the transfer task finished: the handler of a failed
+                 offset send calls state.incomplete(), which InitializingState does not have, so
+                 no transition happens. *)
+Inductive dstate := DComplete | DIncomplete | DFailedCancelled | DWedged | DWedgedInit.
 
 Record dres := mkD {
   d_local : bytes;          (* the local file afterwards *)
@@ -106,7 +109,7 @@ Record dres := mkD {
 
 (* _initialize_download from the resolved file connection on, then _download_file.
      offset = getsize(local_path); transfer.bytes_transfered = offset; send uint64(offset)
-       ConnectionWriteError -> INCOMPLETE
+       ConnectionWriteError -> state.incomplete()  (refused in INITIALIZING: stays INITIALIZING)
      _download_file: start_transferring; filesize None -> raise (task dies, state DOWNLOADING)
      open 'ab'; receive_file(handle, filesize - bytes_transfered, callback)
        ConnectionReadError -> INCOMPLETE
@@ -114,7 +117,7 @@ Record dres := mkD {
 Definition download_core (announced : option Z) (local : bytes) (send_ok : bool)
            (ps : list bytes) (t : term) : dres :=
   let off := len local in
-  if negb send_ok then mkD local DIncomplete None [] off []
+  if negb send_ok then mkD local DWedgedInit None [] off []
   else
     let wire := le 8 (Z.to_N off) in
     match announced with
@@ -141,7 +144,10 @@ Definition download_session (announced : option Z) (local : bytes) (send_ok : bo
        ConnectionWriteError -> FAILED + PeerUploadFailed to the peer
      else: receive_until_eof(raise_exception=False)  (no timeout)
            is_transfered() -> COMPLETE else FAILED *)
-Inductive ustate := UComplete | UFailed | UQueued | UStuck.
+(* UStuck  = UPLOADING, waiting (without timeout) for the peer to close;
+   UWedged = UPLOADING with the transfer task dead: seek(offset) raises ValueError (not OSError)
+             for offsets >= 2^63 *)
+Inductive ustate := UComplete | UFailed | UQueued | UStuck | UWedged.
 
 Record ures := mkU {
   u_wire : bytes;           (* file bytes put on the wire *)
@@ -165,6 +171,7 @@ Definition upload_core (filesize : Z) (offset : option N)
   match offset with
   | None => mkU [] UQueued 0 false
   | Some o =>
+      if N.leb 9223372036854775808 o then mkU [] UWedged (Z.of_N o) false else
       let '(w, ok) := send_loop ps cut 0 in
       let wire := concat w in
       let bt := Z.of_N o + len wire in
@@ -221,11 +228,33 @@ Fixpoint retry_offsets (src local : bytes) (fs : list (fault * list N)) : list (
 
 Definition prefix (l s : bytes) : Prop := exists t, s = l ++ t.
 
+(* ---- test data and read sizes used by the correspondence check ------------------------------ *)
+Fixpoint patf (fuel : nat) (cur : N) : bytes :=
+  match fuel with
+  | O => []
+  | S f => cur :: patf f (let x := (cur + 7)%N in if N.leb 251 x then (x - 251)%N else x)
+  end.
+(* byte i = (seed + 7 i) mod 251 *)
+Definition pat (seed n : N) : bytes := patf (N.to_nat n) (N.modulo seed 251).
+(* bytes start .. start+k of pat seed tot *)
+Definition slice (sp : N * N * N * N) : bytes :=
+  let '(seed, tot, start, k) := sp in takeN k (dropN start (pat seed tot)).
+Definition slices (sps : list (N * N * N * N)) : bytes := flat_map slice sps.
+
+Fixpoint sizes_fuel (fuel : nat) (grant n : N) : list N :=
+  match fuel with
+  | O => []
+  | S f => if N.eqb n 0 then [] else if N.leb n grant then [n] else grant :: sizes_fuel f grant (n - grant)
+  end.
+(* read sizes of a receiver that drains every delivered segment completely *)
+Definition read_sizes (grant : N) (segs : list N) : list N :=
+  flat_map (fun n => sizes_fuel (S (N.to_nat (N.div n (N.max 1 grant)))) (N.max 1 grant) n) segs.
+
 (* ---- codes used by the correspondence check ------------------------------------------------ *)
 Definition dcode (s : dstate) : Z :=
-  match s with DComplete => 0 | DIncomplete => 1 | DFailedCancelled => 2 | DWedged => 3 end.
+  match s with DComplete => 0 | DIncomplete => 1 | DFailedCancelled => 2 | DWedged => 3 | DWedgedInit => 4 end.
 Definition ucode (s : ustate) : Z :=
-  match s with UComplete => 0 | UFailed => 1 | UQueued => 2 | UStuck => 3 end.
+  match s with UComplete => 0 | UFailed => 1 | UQueued => 2 | UStuck => 3 | UWedged => 4 end.
 Definition tcode (z : Z) : term := if Z.eqb z 0 then TEof else if Z.eqb z 1 then TReset else TTimeout.
 
 Fixpoint beq (a b : bytes) : bool :=
@@ -240,3 +269,56 @@ Fixpoint zleq (a b : list Z) : bool :=
   | x :: a', y :: b' => andb (Z.eqb x y) (zleq a' b')
   | _, _ => false
   end.
+
+(* ---- comparison of one observed attempt with the model (used by generated case files) -------
+   Generated files contain Z numerals only (cheap to parse); conversions happen here. *)
+Definition sp := (N * N * N * N)%type.
+Definition spz := (Z * Z * Z * Z)%type.
+Definition sp_of (x : spz) : sp := let '(a, b, c, d) := x in (Z.to_N a, Z.to_N b, Z.to_N c, Z.to_N d).
+Definition oeq (a b : option Z) : bool :=
+  match a, b with Some x, Some y => Z.eqb x y | None, None => true | _, _ => false end.
+Fixpoint unrle (l : list (Z * Z)) : list Z :=
+  match l with [] => [] | (v, c) :: r => repeat v (Z.to_nat c) ++ unrle r end.
+
+(* slices of the case's main pattern are cut from one shared copy [base] = pat seed tot *)
+Definition slice_with (bs : Z * Z) (base : bytes) (x : spz) : bytes :=
+  let '(seed, tot, start, k) := x in
+  if Z.eqb seed (fst bs) && Z.eqb tot (snd bs) then takeN (Z.to_N k) (dropN (Z.to_N start) base) else slice (sp_of x).
+Definition slices_with (bs : Z * Z) (base : bytes) (xs : list spz) : bytes := flat_map (slice_with bs base) xs.
+
+(* expected: state code, offset, wire, bytes_transfered, callback sizes (run-length encoded), file content *)
+Definition expd := (Z * option Z * list Z * Z * list (Z * Z) * list spz)%type.
+(* announced, send_ok, stream, term code, grant, delivered segment sizes, expected *)
+Definition sess := (option Z * bool * spz * Z * Z * list Z * expd)%type.
+
+Definition agree_d (bs : Z * Z) (base : bytes) (d : dres) (e : expd) : bool :=
+  let '(st, off, wire, bt, reads, lsp) := e in
+  Z.eqb (dcode (d_state d)) st && oeq (d_offset d) off && beq (d_wire d) (map Z.to_N wire) &&
+  Z.eqb (d_bt d) bt && zleq (d_reads d) (unrle reads) && beq (d_local d) (slices_with bs base lsp).
+
+(* first disagreement of a chain of attempts on one transfer: [id; attempt; model state; model bt; model file length] *)
+Fixpoint chain (bs : Z * Z) (base : bytes) (id : Z) (local : bytes) (ss : list sess) (k : Z) : list (list Z) :=
+  match ss with
+  | [] => []
+  | (a, ok, st, t, grant, segs, e) :: r =>
+      let d := download_session a local ok (slice_with bs base st) (tcode t) (read_sizes (Z.to_N grant) (map Z.to_N segs)) in
+      if agree_d bs base d e then chain bs base id (d_local d) r (k + 1)
+      else [[id; k; dcode (d_state d); d_bt d; len (d_local d)]]
+  end.
+
+(* id, main pattern (seed, n), initial local file, attempts *)
+Definition dcase := (Z * (Z * Z) * list spz * list sess)%type.
+Definition bad_d (cs : list dcase) : list (list Z) :=
+  flat_map (fun c => let '(id, bs, l0, ss) := c in
+                     let base := pat (Z.to_N (fst bs)) (Z.to_N (snd bs)) in
+                     chain bs base id (slices_with bs base l0) ss 0) cs.
+
+(* upload case: id, src (seed, n), filesize, offset, grant, cut, peer closes, expected (state, wire, bt, failmsg) *)
+Definition ucase := (Z * (Z * Z) * Z * option Z * Z * option Z * bool * (Z * spz * Z * bool))%type.
+Definition bad_u (cs : list ucase) : list (list Z) :=
+  flat_map (fun c =>
+    let '(id, bs, fsz, off, grant, cut, pc, (st, wsp, bt, fm)) := c in
+    let base := pat (Z.to_N (fst bs)) (Z.to_N (snd bs)) in
+    let u := upload_session base fsz (option_map Z.to_N off) (Z.to_N grant) cut pc in
+    if Z.eqb (ucode (u_state u)) st && beq (u_wire u) (slice_with bs base wsp) && Z.eqb (u_bt u) bt && Bool.eqb (u_failmsg u) fm
+    then [] else [[id; ucode (u_state u); u_bt u; len (u_wire u)]]) cs.
